@@ -274,4 +274,4 @@ def run_shard(ctx):
                 pass
         return t
 
-    ctx.run_given(mk, ctx.budget(6000, 200000))
+    ctx.run_given(mk, ctx.budget(6000, 120000))
